@@ -673,6 +673,30 @@ fn process_items(file: &str, items: Vec<Item>, cfg: &Cfg, rw: &mut Rewriter, out
                         out.dropped_items.push(format!("{}: impl {} for {}", file, tn, st));
                         continue;
                     }
+                    if tn == "From" {
+                        // R3b: `impl From<A> for B { fn from(v: A) -> B }` is emitted as the free function
+                        // `from_A_for_B` (vstd attaches its own laws to `From::from`; the body is unchanged)
+                        let a = match &im.trait_.as_ref().unwrap().1.segments.last().unwrap().arguments {
+                            PathArguments::AngleBracketed(ab) => ab.args.to_token_stream().to_string().replace(' ', ""),
+                            _ => die("From without type argument"),
+                        };
+                        for ii in im.items.drain(..) {
+                            if let ImplItem::Fn(f) = ii {
+                                let orig = f.to_token_stream();
+                                let name = Ident::new(&format!("from_{}_for_{}", a, st), Span::call_site());
+                                let mut sig = f.sig.clone();
+                                sig.ident = name.clone();
+                                let mut block = f.block.clone();
+                                let key = format!("fn <{} as From<{}>>::from", st, a);
+                                let line = f.sig.ident.span().start().line;
+                                rw.self_ty = st.clone();
+                                process_fn_body(file, &key, line, orig, &mut block, &mut sig, rw, out);
+                                out.dropped.insert("R3b: impl From<A> for B emitted as free fn from_A_for_B".into());
+                                out.items.push(Item::Fn(ItemFn { attrs: vec![], vis: parse_quote!(pub), sig, block: Box::new(block) }));
+                            }
+                        }
+                        continue;
+                    }
                     if TO_INHERENT.contains(&tn.as_str()) {
                         im.trait_ = None;
                         im.items.retain(|ii| !matches!(ii, ImplItem::Type(_)));
